@@ -341,10 +341,10 @@ func minimise(prog N, fn string, args []any, kind string) (N, []string) {
 	if stillFails([]N{cur}, 0) == nil {
 		return nil, nil
 	}
-	for round := 1; round <= 8; round++ {
+	for round := 1; round <= 6; round++ {
 		cands := candidates(cur)
-		if len(cands) > 60 {
-			cands = cands[:60]
+		if len(cands) > 48 {
+			cands = cands[:48]
 		}
 		next := stillFails(cands, round)
 		if next == nil || size(next) >= size(cur) {
